@@ -39,7 +39,8 @@ theorem step_discipline (cfg : Config) (hnew : cfg.matches .new = true) (hundo :
     ∃ P', (⟨s.db.libRef.id, P⟩ : CS).run (processBlock cfg s b none).2.1 =
         some ⟨(processBlock cfg s b none).1.db.libRef.id, P'⟩ ∧
       Inv (processBlock cfg s b none).1 P' :=
-  processBlock_step cfg hnew hundo hirr s P b hI hok.1 hok.2.1 hok.2.2.1 hok.2.2.2
+  let ⟨P', h1, h2, _⟩ := processBlock_step cfg hnew hundo hirr s P b hI hok.1 hok.2.1 hok.2.2.1 hok.2.2.2
+  ⟨P', h1, h2⟩
 
 theorem runHistory_cons (cfg : Config) (s : FState) (b : Blk) (r : List Blk) :
     runHistory cfg s (b :: r) =
